@@ -109,7 +109,7 @@ theorem rejects_iff_numpy_rejects_broadcast (s1 s2 : List Nat) :
     (∀ e, bshape2 s1 s2 false = .error e → e = Err.value) := by
   refine ⟨?_, fun e h => bshape2_error _ _ _ _ h⟩
   unfold bshape2
-  simp only []
+  simp only [Bool.false_and, Bool.false_eq_true, if_false]
   split
   · rename_i hall
     simp only [reduceCtorEq, false_iff, not_exists, not_and]
